@@ -119,8 +119,17 @@ def check_table(eng, prop, refs, variant, table, aborts_table, what):
                 except Exception:
                     continue
         return None
+    def folds(e):
+        a = e.get('abort')
+        if a and a[0] in ('uint_Sub',) and len(a) == 3:
+            if a[2] == ('int', 0): return True
+            try:
+                d = poly(a[1]) - poly(a[2])
+                if d.is_const() and d.m.get((), 0) >= 0: return True
+            except Exception: pass
+        return False
     for e in refs.of(variant):
-        hit = try_tables(e)
+        hit = ('fold', 'D(fold: x - 0 / x - x cannot underflow)') if folds(e) else try_tables(e)
         ok = hit is not None
         if ok: matched[hit[0]] += 1
         eng.ob(ok, prop, 'refusal', '%s:%s:%s' % (variant, e['kind'], e['key'][:300]),
